@@ -597,6 +597,10 @@ class Inst:
                     s.mod.resolve(s.f.fty.ret), (StructT, ArrayT)) else body.append('__CPROVER_assume(0);')
             return
         if op == 'fence':
+            if ins.x.get('scope') == 'singlethread':
+                return      # atomic_signal_fence: compiler barrier only
+            if ins.x.get('order') in ('acquire', 'release', 'acq_rel'):
+                return      # no-op on x86-TSO (no store->load ordering implied)
             s.yield_point('fence')
             body.append('RT_FENCE(%d);' % s.slot)
             return
